@@ -1,5 +1,5 @@
 #!/usr/bin/env python3
-"""Rewrites section 10.5 of DESIGN.md from /verif/seeded/*/meta.json."""
+"""Rewrites section 10.6 of DESIGN.md from /verif/seeded/*/meta.json."""
 import glob
 import json
 import os
@@ -19,7 +19,7 @@ for d in sorted(glob.glob(os.path.join(ROOT, "seeded", "*"))):
     if m.get("detected"):
         det = "VIOLATION with failing input" if m.get("detected_with_failing_input") else "VIOLATION no-failing-input-found"
     rows.append("| %s | %s | %s | %s |" % (os.path.basename(d), summ.replace("|", "/"), needs.replace("|", "/"), det))
-table = ("### 10.5 Seeded changes\n\n"
+table = ("### 10.6 Seeded changes\n\n"
          "Written by independent sub-agents that saw only the property text and a scratch\n"
          "worktree; each confirmed by `tools/seedtest.py` (demonstration passes on the\n"
          "unchanged tree and fails with the change; no additional existing test fails) and\n"
@@ -28,7 +28,7 @@ table = ("### 10.5 Seeded changes\n\n"
          "| Seed | Change | Needs | Quick check |\n|------|--------|-------|-------------|\n" + "\n".join(rows) + "\n")
 p = os.path.join(ROOT, "DESIGN.md")
 s = open(p).read()
-i = s.index("### 10.5 Seeded changes")
+i = s.index("### 10.6 Seeded changes")
 s = s[:i] + table
 open(p, "w").write(s)
 print("rows:", len(rows))
